@@ -276,6 +276,37 @@ func genStreamSpec(prop string, seed uint64, o streamGenOpts) *spec.RunSpec {
 		if r.Bool(0.25) {
 			s.Net.BytesPerSec = int64(r.Pick(50000, 500000, 5000000))
 		}
+		// Keep the link fast enough for the scripted volume: sessions multiplexed on one
+		// connection queue behind each other, and a handshake that waits more than 10 s
+		// behind somebody else's bulk transfer times out - a property of a slow link, not
+		// of the stream. The whole volume must fit into about 3 virtual seconds.
+		total := int64(sumAll(s))
+		for iter := 0; iter < 8; iter++ {
+			rtt := 2 * (s.Net.LatencyUs + s.Net.JitterUs)
+			buf := int64(s.Net.RecvBuf)
+			if buf == 0 {
+				buf = 256 << 10
+			}
+			tput := buf * 1000000 / (rtt + 1) // bytes per second allowed by the window
+			if s.Net.BytesPerSec > 0 && s.Net.BytesPerSec < tput {
+				tput = s.Net.BytesPerSec
+			}
+			if total*1000000/(tput+1) <= 3000000 {
+				break
+			}
+			switch {
+			case s.Net.BytesPerSec > 0 && s.Net.BytesPerSec <= tput:
+				s.Net.BytesPerSec *= 10
+				if s.Net.BytesPerSec > 50000000 {
+					s.Net.BytesPerSec = 0
+				}
+			case s.Net.RecvBuf > 0 && s.Net.RecvBuf < 1<<20:
+				s.Net.RecvBuf *= 16
+			default:
+				s.Net.LatencyUs = s.Net.LatencyUs/4 + 1
+				s.Net.JitterUs /= 4
+			}
+		}
 	}
 	return s
 }
